@@ -259,6 +259,27 @@ pub fn shrink(world: &World, t: &Trace, f: &Fault, v: &Violation) -> (Trace, Fau
                     t.input.native_read_byte = false;
                     sh.attempt(t, sh.best.1.clone());
                 }
+                if sh.best.0.input.nest.is_some() {
+                    // the interleaved second task: drop it, else make it as simple as it can be
+                    let mut t = sh.best.0.clone();
+                    t.input.nest = None;
+                    if !sh.attempt(t, sh.best.1.clone()) {
+                        for bits in [0u128, 1] {
+                            let mut t = sh.best.0.clone();
+                            if t.input.nest.as_ref().map(|n| n.bits) != Some(bits) {
+                                t.input.nest.as_mut().unwrap().bits = bits;
+                                if sh.attempt(t, sh.best.1.clone()) {
+                                    break;
+                                }
+                            }
+                        }
+                        if sh.best.0.input.nest.as_ref().map(|n| n.at) != Some(0) {
+                            let mut t = sh.best.0.clone();
+                            t.input.nest.as_mut().unwrap().at = 0;
+                            sh.attempt(t, sh.best.1.clone());
+                        }
+                    }
+                }
             }
         }
         // 5. smallest failing offset of the same fault kind
